@@ -29,13 +29,15 @@ inductive V where
   deriving DecidableEq, Repr
 
 def countParts (s : Str) : Nat := (s.filter (· == '/')).length + 1     -- `len(dir_path.split("/"))`
+/-- `len(dir_path.rstrip("/").split("/"))`: a key written with a trailing slash is as deep as the same key without it -/
+def keyDepth (s : Str) : Nat := countParts (s.reverse.dropWhile (· == '/')).reverse
 
 /-- `_check_path_match`; `componentAware = true` is the repaired test (the key must be the path itself or
     be followed by "/"), `false` the original string-prefix test (finding F18a) -/
 def pathMatch (componentAware : Bool) (key path : Str) : Option Nat :=
   if key == ['/'] then (if path.contains '/' then none else some 0)
   else if componentAware then
-    (if path == key || (key ++ ['/']).isPrefixOf path || (key.getLast? == some '/' && key.isPrefixOf path) then some (countParts key) else none)
+    (if path == key || (key ++ ['/']).isPrefixOf path || (key.getLast? == some '/' && key.isPrefixOf path) then some (keyDepth key) else none)
   else (if key.isPrefixOf path then some (countParts key) else none)
 
 /-- `find_matching_rule`: the first rule of strictly greatest depth -/
@@ -94,12 +96,12 @@ def contains (key path : Str) : Bool :=
   if key == ['/'] then !path.contains '/'
   else path == key || (key ++ ['/']).isPrefixOf path || (key.getLast? == some '/' && key.isPrefixOf path)
 
-/-- the most specific containing rule (greatest number of components, first on ties) -/
+/-- the most specific containing rule (greatest number of components - a trailing slash adds none -, first on ties) -/
 def mostSpecific (path : Str) (dirs : List DirRule) : Option DirRule :=
   let cands := dirs.filter (fun r => contains r.key path)
   cands.foldl (fun best r => match best with
     | none => some r
-    | some b => if (if r.key == ['/'] then 0 else countParts r.key) > (if b.key == ['/'] then 0 else countParts b.key) then some r else some b) none
+    | some b => if (if r.key == ['/'] then 0 else keyDepth r.key) > (if b.key == ['/'] then 0 else keyDepth b.key) then some r else some b) none
 
 def denyHit (rx : Pat → Bool) (deny : Option (List Pat)) : Bool :=
   match deny with | some d => d.any rx | none => false
